@@ -70,7 +70,8 @@ pub fn run() {
         }
         let a = kv(&line);
         let id: u64 = a["id"].parse().unwrap();
-        let bad_inner = a.get("bad").map(|s| s == "1").unwrap_or(false);
+        let bad_kind: u32 = a.get("bad").map(|s| s.parse().unwrap()).unwrap_or(0);
+        let bad_inner = bad_kind != 0;
         let propagate = a.get("prop").map(|s| s == "1").unwrap_or(true);
         let nafter: usize = a.get("nafter").map(|s| s.parse().unwrap()).unwrap_or(1);
         let ninner: usize = a.get("ninner").map(|s| s.parse().unwrap()).unwrap_or(1);
@@ -90,7 +91,11 @@ pub fn run() {
             let (tx, rx) = ipc::channel::<Outer>().unwrap();
             let inner_region = payload(id + 1, 300);
             let outer_region = payload(id + 2, 500);
-            if bad_inner {
+            if bad_kind == 2 {
+                // a message WITHOUT attachments whose bytes read as an Inner that claims attachment 1, the empty region and no further
+                // senders: it must be refused - attachment 1 of the ENCLOSING message is not its to take
+                let _ = stx.clone().to_opaque().to::<(u64, u64, u64)>().send((1, u64::MAX, 0));
+            } else if bad_inner {
                 // something that does not decode as Inner sits in the side channel
                 let _ = stx.clone().to_opaque().to::<u64>().send(12345);
             } else {
